@@ -202,6 +202,8 @@ def cmd_table(args):
         verdict = "caught" if c.get("caught") else "**missed** (exit %s)" % c.get("exit")
         if m.get("history"):
             verdict += " †"
+        if not c.get("caught") and m.get("thorough", {}).get("caught"):
+            verdict += "; **caught by the thorough tier** (%s)" % ", ".join(m["thorough"].get("violations", []))[:90]
         rows.append("| %s | %s | %s | %s | %s |" % (os.path.basename(d.rstrip("/")), m.get("breaks", "")[:150].replace("|", "/").replace("\n", " "), m.get("needs", "")[:110].replace("|", "/").replace("\n", " "), verdict, by))
     n = len(rows)
     caught = sum(1 for r in rows if "| caught" in r)
